@@ -396,7 +396,7 @@ impl CompressionCodec for Bzip2Codec {
     }
 
     fn magic_bytes(&self) -> Option<&[u8]> {
-        Some(&[0x42, 0x5a])
+        Some(&[0x42, 0x5a, 0x68])
     }
 
     fn wrap_reader_dyn(&self, reader: Box<dyn Read>) -> IoResult<Box<dyn Read>> {
